@@ -68,9 +68,11 @@ class C01(Prop):
     id = "C01"
     title = "NG Setup + UE registration is accepted by a conformant AMF"
     lean_module = "Stgutg.Props.C01"
-    extra_modules = ["Stgutg.Props.C02Traffic"]
-    gen = ["schema", "registry", "templates", "nasie", "naslayout", "nassetters", "extract", "script", "tables", "traffic"]
-    theorems = ["Stgutg.Props.C02Traffic." + t for t in [
+    extra_modules = ["Stgutg.Props.C02Traffic", "Stgutg.Props.C01Transport"]
+    gen = ["schema", "registry", "templates", "nasie", "naslayout", "nassetters", "extract", "script", "tables", "traffic", "transport"]
+    theorems = ["Stgutg.Props.C01Transport." + t for t in [
+        # tglib.ConnectToAmf (bypassed by the verif hook, never executed by a run): endpoints and NGAP PPID from the source
+        "C01_transport_facts", "C01_transport_endpoints", "C01_transport_ppid"]] + ["Stgutg.Props.C02Traffic." + t for t in [
         # traffic mode (not runnable here) performs NG Setup and registers UE 0 … N−1 exactly as test mode does
         "C02_traffic_structure", "C02_traffic_is_test_mode"]] + ["Stgutg.Props.C01." + t for t in [
         "autn_take6", "C01_res_star", "table_authenticationResponse", "C01_authentication_response_accepted",
